@@ -255,7 +255,7 @@ func fsNOnesArg(r *Repo, e *constEnv, x ast.Expr) (string, error) {
 	return fsEvalNum(r, e, c.Args[0])
 }
 
-func genFs(r *Repo) (string, error) {
+func genFs19(r *Repo) (string, error) {
 	o := &fsOut{}
 	o.b.WriteString("From Coq Require Import String List NArith.\nImport ListNotations.\nOpen Scope string_scope.\n\n")
 
@@ -462,6 +462,20 @@ func genFs(r *Repo) (string, error) {
 	}
 	o.cmp("fs_rreaddir_break", a, op, b)
 
+	return o.b.String(), nil
+}
+
+// genFs20: fsimpl/qids and the localfs QID functions (C20); a separate file so that a refusal in the
+// Readdir part (C19) does not take the C20 obligations down with it, and vice versa.
+func genFs20(r *Repo) (string, error) {
+	o := &fsOut{}
+	o.b.WriteString("From Coq Require Import String List NArith.\nImport ListNotations.\nOpen Scope string_scope.\n\n")
+	lenv, _, err := collectConsts(r, "fsimpl/localfs")
+	if err != nil {
+		return "", err
+	}
+	var a, op, b string
+	_, _, _ = a, op, b
 	// ---------------- qids.go ----------------
 	o.b.WriteString("(* fsimpl/qids/qids.go *)\n")
 	qfd, err := r.FuncDecls("fsimpl/qids")
@@ -738,4 +752,7 @@ func genFs(r *Repo) (string, error) {
 	return o.b.String(), nil
 }
 
-func init() { register(Generator{Name: "FsGen", Run: genFs}) }
+func init() {
+	register(Generator{Name: "FsGen19", Run: genFs19})
+	register(Generator{Name: "FsGen20", Run: genFs20})
+}
